@@ -210,6 +210,8 @@ var c06FixedPolicies = []c06Policy{
 }
 
 var c06Hosts = []string{
+	// empty / bracket noise
+	"", "[", "]", "[]", "[::1", "::1]", "[[::1]]",
 	// IPv4 literals and look-alikes
 	"198.51.100.7", "10.0.0.1", "127.0.0.1", "127.0.0.2", "0.0.0.0", "255.255.255.255", "192.0.2.200", "001.2.3.4", "1.2.3", "127.1",
 	"0x7f.0.0.1", "2130706433", "017700000001", "1.2.3.4.", "1.2.3.4.5", "１.２.３.４", " 10.0.0.1", "10.0.0.1 ",
@@ -218,8 +220,6 @@ var c06Hosts = []string{
 	"::ffff:10.0.0.1", "::ffff:a00:1", "::FFFF:198.51.100.7", "::10.0.0.1", "64:ff9b::10.0.0.1", "2001:db8::", "2001:db8:1::7:",
 	// zones
 	"fe80::1%lo", "fe80::1%eth0", "fe80::1%", "fe80::1%25lo", "2001:db8:1::7%lo", "::ffff:10.0.0.1%eth0", "::ffff:198.51.100.7%lo", "::1%lo", "10.0.0.1%lo", "fe80::1%lo%lo",
-	// empty / bracket noise
-	"", "[", "]", "[]", "[::1", "::1]", "[[::1]]",
 	// hostnames (scripted)
 	"ok.test", "ok6.test", "both.test", "blocked.test", "loop.test", "loop6.test", "rebind.test", "rebind2.test", "rebind6.test", "mapped.test", "zero.test",
 	"multi.test", "empty.test", "nx.test", "blocked.com", "x.blocked.com", "blocked.com.au", "UPPER.TEST", "ok.test.", "localhost", "LOCALHOST", "localhost.",
